@@ -113,7 +113,8 @@ def step (line : String) : String :=
     let q := ((kv rest "q").bind String.toNat?).getD 0
     let nocons := (kv rest "nocons") == some "1"
     let s0 : SSys := { qcap := if q == 0 then 1024 else q, queueLen := 1, consumer := !nocons, inbuf := List.replicate keys (some 1),
-                       da1First := da1FirstOf Gen.Conc.skeleton_Suspend, resumeClears := resumeClearsOf Gen.Conc.skeleton_Resume }
+                       da1First := da1FirstOf Gen.Conc.skeleton_Suspend, resumeClears := resumeClearsOf Gen.Conc.skeleton_Resume,
+                       waitDrains := waitDrainsOf Gen.Conc.shape_Parser_WaitClose, postQuitArm := postQuitArmOf Gen.Conc.shape_PostEventBlocking }
     let pol : Policy := if gate == 1 then .libFirst else .callerFirst
     let mc := " ".intercalate (session pol (400 + 40 * keys) s0 ops)
     -- the oracle (independent of the model): every Suspend and every Close returns and leaves no
@@ -136,7 +137,8 @@ def step (line : String) : String :=
     let qcap := if q == 0 then 1024 else q
     let full := kind == "full"
     let s0 : SSys := { qcap := qcap, queueLen := if full then qcap else 0, consumer := !full,
-                       da1First := da1FirstOf Gen.Conc.skeleton_Suspend, resumeClears := resumeClearsOf Gen.Conc.skeleton_Resume }
+                       da1First := da1FirstOf Gen.Conc.skeleton_Suspend, resumeClears := resumeClearsOf Gen.Conc.skeleton_Resume,
+                       waitDrains := waitDrainsOf Gen.Conc.shape_Parser_WaitClose, postQuitArm := postQuitArmOf Gen.Conc.shape_PostEventBlocking }
     let out := (kv fi "out").getD "?"
     let tr := ((kv fi "trace").getD "-")
     let items := if tr == "-" then [] else tr.splitOn ","
